@@ -81,7 +81,7 @@ pub fn digest_one(h: &History) -> (u64, u64) {
     for op in &h.ops {
         let r = w.resolve(op);
         match op {
-            Op::Clone { from, .. } | Op::Take { from, .. } => w.ensure_live(*from),
+            Op::Clone { from, .. } | Op::Take { from, .. } | Op::WriteArg { from, .. } => w.ensure_live(*from),
             Op::CloneFrom { slot, from } => {
                 w.ensure_live(*from);
                 w.ensure_live(*slot);
